@@ -5,7 +5,7 @@ from lib import vlib
 RULE = ("documents: every symbol string up to MaxLen over a 17-symbol alphabet (structural characters, quote, backslash, letter, "
         "digits, minus, point, exponent, true, null, space, \\u escapes incl. lone surrogates) and every quoted string body up to 5 (thorough 6) string symbols, with the verdict of the TLA+ RFC 8259 recogniser; encoding/json is "
         "evaluated side by side (a disagreement between the two oracles is a spec bug, not a violation); Valid / Unmarshal value / "
-        "Compact / Indent compared; trees: every value tree of depth <= 2 over 24 leaf kinds of every uGO type: Marshal must return "
+        "Compact / Indent compared; trees: every value tree of depth <= 2 over 29 leaf kinds of every uGO type (incl. bytes of 770 / 4097 bytes, a 6000-character string, a 3000-element array, a 400-key map): Marshal must return "
         "an error or valid JSON, for representable trees the bytes of encoding/json and a faithful round trip; "
         "near-valid documents: 14 valid skeleton documents (members, elements, nesting, white space, numbers, escapes) changed by every single-symbol insertion, deletion and replacement (thorough: every pair of edits); "
         "non-trivial = documents the recogniser accepts, and all trees")
